@@ -107,13 +107,18 @@ func (x *FnExec) execInstr(b *ssa.BasicBlock, in ssa.Instruction, st *State) boo
 		addr := x.value(in.Addr)
 		x.derefCheck(st, addr.T, "store")
 		el := in.Addr.Type().Underlying().(*types.Pointer).Elem()
-		x.storeL(st, addr.T, el, x.coerce(x.value(in.Val), el), x.leavesOfPtr(in.Addr, el))
+		sv := x.coerce(x.value(in.Val), el)
+		if a := rootAlloc(in.Addr); a == nil || a.Heap {
+			x.noteEscape(sv) // a pointer written to memory others can read
+		}
+		x.storeL(st, addr.T, el, sv, x.leavesOfPtr(in.Addr, el))
 	case *ssa.FieldAddr:
 		base := x.value(in.X)
 		x.derefCheck(st, base.T, "field address")
 		pt := in.X.Type().Underlying().(*types.Pointer).Elem()
 		off := x.mem.FieldOffset(pt, in.Field)
 		x.setVal(in, IntV(Add(base.T, Lit(int64(off)))))
+		x.derived[x.vals[in].T] = base.T
 		x.ptrLeaves[in] = x.mem.FieldLeaves(pt, in.Field)
 		x.checkFieldAddrEscape(in)
 	case *ssa.Field:
@@ -172,12 +177,16 @@ func (x *FnExec) execInstr(b *ssa.BasicBlock, in ssa.Instruction, st *State) boo
 	case *ssa.ChangeInterface:
 		x.vals[in] = x.value(in.X)
 	case *ssa.MakeInterface:
+		x.noteEscape(x.value(in.X))
 		x.setVal(in, x.makeInterface(in.X.Type(), x.value(in.X)))
 	case *ssa.TypeAssert:
 		x.typeAssert(in, st)
 	case *ssa.MakeClosure:
 		// closure value: identity of the function plus bindings, recorded for calls
 		fn := in.Fn.(*ssa.Function)
+		for _, b := range in.Bindings {
+			x.noteEscape(x.value(b))
+		}
 		id := x.allocate(st, 1)
 		x.eng.closureMu.Lock()
 		x.eng.closures[closureKey{x, id}] = closureInfo{fn: fn, bindings: in.Bindings}
@@ -859,6 +868,11 @@ func (x *FnExec) finish(args []Val) {
 	}
 	if len(x.rets) == 0 && len(x.panics) == 0 {
 		x.errorf("%s: no exit reached", x.fnName())
+	}
+	for k, ca := range con.CallAsserts {
+		if !x.assertHit[k] {
+			x.errorf("assert call %s: no call site matches (vacuous assertion)", ca.Callee)
+		}
 	}
 }
 
